@@ -142,7 +142,11 @@ class Run:
             "violations": len(self.violations), "known_findings_reported": self.known,
             "repo_state": repo_state(), "notes": self.notes,
         }
-        with open(os.path.join(EVIDENCE, self.prop + ".json"), "w") as f:
+        # a replay run describes one input only: it does not replace the evidence of the regular run
+        ev_name = self.prop + (".replay.json" if self.replay else ".json")
+        if self.replay:
+            ev["replay_of"] = self.replay
+        with open(os.path.join(EVIDENCE, ev_name), "w") as f:
             json.dump(ev, f, indent=1, default=str)
         for k in self.known:
             print(k)
